@@ -12,7 +12,11 @@
 (*               "expired" (pause already over: on again),                 *)
 (*       filt    BOOLEAN  global "filtering enabled",                      *)
 (*       svc     "none"|"active"|"paused"   a blocked service configured   *)
-(*               globally, and whether its schedule pauses it now,         *)
+(*               globally, and whether its schedule pauses it now: the     *)
+(*               pause is in effect iff now, read in the SCHEDULE's time   *)
+(*               zone, lies in the range of that zone's current day (the   *)
+(*               harness picks zones whose weekday differs from the        *)
+(*               server's, with different ranges on the two days),         *)
 (*       client  [known   c1 is a persistent client,                       *)
 (*                useOwn  it uses its own settings,                        *)
 (*                filt    its own "filtering enabled",                     *)
